@@ -185,9 +185,12 @@ class Closure:
 
 
 class Interp:
-    def __init__(self, mod, extra_env: Optional[dict] = None, max_steps: int = 200000, opaque: Optional[dict] = None):
+    def __init__(self, mod, extra_env: Optional[dict] = None, max_steps: int = 200000, opaque: Optional[dict] = None, module_state: Optional[dict] = None):
         self.mod = mod
         self.extra = extra_env or {}
+        # module-level names re-bound through `global` statements: the caller passes one dict per scenario so that
+        # successive calls (separate Interp objects) see what earlier calls of the same history stored
+        self.module_state = module_state if module_state is not None else {}
         self.steps = 0
         self.max_steps = max_steps
         self.depth = 0
@@ -480,7 +483,12 @@ class Interp:
                 env.nonlocals.update(st.names)
             return
         if isinstance(st, ast.Global):
-            raise Unsupported("global statement")
+            if not isinstance(env, Env):
+                raise Unsupported("global statement outside a function scope")
+            if not hasattr(env, "globals_"):
+                env.globals_ = set()
+            env.globals_.update(st.names)
+            return
         raise Unsupported(f"statement {type(st).__name__}")
 
     @staticmethod
@@ -508,6 +516,9 @@ class Interp:
 
     def _assign(self, t, v, env):
         if isinstance(t, ast.Name):
+            if t.id in getattr(env, "globals_", ()):
+                self.module_state[t.id] = v
+                return
             env[t.id] = v
         elif isinstance(t, (ast.Tuple, ast.List)):
             vs = list(v)
@@ -587,6 +598,8 @@ class Interp:
         if isinstance(n, ast.Constant):
             return n.value
         if isinstance(n, ast.Name):
+            if n.id in self.module_state and (n.id in getattr(env, "globals_", ()) or n.id not in env):
+                return self.module_state[n.id]
             if n.id in env:
                 return env[n.id]
             if n.id in self.extra:
